@@ -640,3 +640,19 @@ def boolean_store_rule(chk, P, rule, unit_ok):
                        'the %d-bit value %s is stored in the 8-bit Boolean %s: only its low byte survives, so a non-zero value '
                        'that is a multiple of 256 reads as False' % (abs(r[3]), show(r[4]), tgt[1]))
     return n
+
+
+def written_after(f, bid, idx):
+    """lvalues (stripped) assigned or incremented in any element that can execute after element (bid, idx)"""
+    out = set()
+    els = f.blocks[bid]['elems']
+    for j in range(idx + 1, len(els)):
+        for m in walk_own(els[j][1]):
+            if is_assign(m) or is_incdec(m):
+                out.add(strip(m[2]))
+    for b in f.reach_forward([t for t, l in f.succs().get(bid, ())]):
+        for ln, ex in f.blocks[b]['elems']:
+            for m in walk_own(ex):
+                if is_assign(m) or is_incdec(m):
+                    out.add(strip(m[2]))
+    return out
